@@ -156,7 +156,8 @@ class Row(Vector):
 		# to see if it has dimensions (is a Vector/Table)
 		first_val = self._raw_cols[0][self._index]
 		
-		if hasattr(first_val, 'shape'):
+		# (by type, not by attribute: a cell of any other class may well have a `shape` of its own)
+		if isinstance(first_val, Vector):
 			return (my_len,) + first_val.shape
 		
 		return (my_len,)
